@@ -109,7 +109,7 @@ def shrink(lines, pid, label, kind, tag):
         f = os.path.join(V, "work", tag + ".shrink.case")
         open(f, "w").write("\n".join(cand) + "\n")
         impl, model, _ = run_cases(f, tag + ".shrink")
-        rep = compare.compare(impl, model, skip_labels=cfg.get("skip_labels", ()))
+        rep = compare.compare(impl, model, skip_labels=cfg.get("skip_labels", ()), oracle_skip=cfg.get("oracle_skip", ()))
         mm = rep["oracle_mismatch"] if kind == "oracle" else rep["corr_mismatch"]
         return any(m["label"].split("#")[0] == label.split("#")[0] for m in mm) or (label == "crash" and rep["crashed"])
     structural = ("case ", "gravity", "add ", "set", "cset", "contact", "loop", "bind", "actuation", "luafile")
@@ -217,7 +217,7 @@ def main():
         with open(casefile, "a") as f: f.write(open(tmp).read())
         os.remove(tmp)
     impl, model, rcs = run_cases(casefile, tag)
-    rep = compare.compare(impl, model, skip_labels=cfg.get("skip_labels", ()), same=[(m["case"],) + tuple(sm) for m in metas for sm in m.get("same", [])], twin_tol=cfg.get("twin_tol"),
+    rep = compare.compare(impl, model, skip_labels=cfg.get("skip_labels", ()), same=[(m["case"],) + tuple(sm) for m in metas for sm in m.get("same", [])], twin_tol=cfg.get("twin_tol"), oracle_skip=cfg.get("oracle_skip", ()),
                           unchanged_on_reject=cfg.get("unchanged_on_reject", False))
 
     violations = []      # (kind, label, case, why)
@@ -240,6 +240,17 @@ def main():
         if nviol >= 5: nviol += 1; return
         h = hashlib.sha1(("\n".join(cl) + label).encode()).hexdigest()[:10]
         path = os.path.join(V, "replays", "%s-%s.case" % (pid, h))
+        # files the case refers to (generated Lua descriptions) are kept beside the replay
+        cl2 = []
+        for l in cl:
+            t = l.split()
+            if t and t[0] in ("luaload", "luadecoy") and len(t) > 1 and os.path.exists(t[1]):
+                dst = os.path.join(V, "replays", "%s-%s-%s" % (pid, h, os.path.basename(t[1])))
+                try: shutil.copyfile(t[1], dst); t[1] = dst
+                except OSError: pass
+                l = " ".join(t)
+            cl2.append(l)
+        cl = cl2
         with open(path, "w") as f:
             f.write("# property %s: %s mismatch on observable '%s': %s\n" % (pid, "specification (L3 oracle)" if kind == "oracle" else "model correspondence (L2)", label, why))
             f.write("# replay: tools/check.py %s --replay %s\n" % (pid, path))
@@ -261,7 +272,7 @@ def main():
         for k in range(cfg.get("aim_rounds", 4)):
             gen_cases.generate(cfg["profile"], seed + 7777 + k, n * 3, tmp, prefix="aim%d_" % k)
             impl2, model2, _ = run_cases(tmp, tag + ".aim")
-            rep2 = compare.compare(impl2, model2, skip_labels=cfg.get("skip_labels", ()))
+            rep2 = compare.compare(impl2, model2, skip_labels=cfg.get("skip_labels", ()), oracle_skip=cfg.get("oracle_skip", ()))
             for m in rep2["oracle_mismatch"][:40]:
                 cl = extract_case(tmp, m["case"])
                 open(casefile, "a").write("\n".join(cl) + "\n")
@@ -327,6 +338,9 @@ def main():
         "wall_s": round(time.time() - t0, 2), "violations": nviol,
     }
     json.dump(ev, open(os.path.join(V, "evidence", pid + ".json"), "w"), indent=1)
+    for f in glob.glob(os.path.join(V, "work", "lua", "*_%d_*" % os.getpid())):
+        try: os.remove(f)
+        except OSError: pass
     for f in glob.glob(os.path.join(V, "work", tag + "*")):
         try: os.remove(f)
         except OSError: pass
